@@ -4,11 +4,15 @@ Comments inside trivia (helper lemmas for Props/C07): the `COMMENT` rule of the 
 `WHITESPACE* (COMMENT WHITESPACE*)*` over ARBITRARY trivia `Ws t`: a run of whitespace characters followed by any number of
 (comment, run of whitespace characters).
 
-A comment is `#`, then characters other than LF / CR which — after leading spaces — do not begin with the letters `import`
-(such a line may be an `#import` statement: the rule's negative lookahead), then a line terminator LF, CR LF or CR.
+A comment is `#`, then characters other than LF / CR which — after leading spaces — are visibly NOT the beginning of an
+`#import` statement (`NotImportHead`: the text does not begin with the letters `import`, or `import` is followed by a name
+character as in `important`, or after `import` and blanks comes a character that can start neither a name nor `*` nor a
+nested comment — the rule's negative lookahead `!ext_ImportStatementContent` is followed through the keyword and the first
+import target), then a line terminator LF, CR LF or CR.
 -/
 import NitroVerif.Lemmas.ParseLex
 import NitroVerif.Lemmas.TypeRoundTrip
+import NitroVerif.Lemmas.ParseMoreLook
 namespace NitroVerif.ValueParse
 open NitroVerif.Peg NitroVerif.Gen NitroVerif.Build NitroVerif.TypeParse
 
@@ -23,10 +27,24 @@ theorem look_ext_ISC : ∃ tl, gList.look R.ext_ImportStatementContent =
 
 abbrev kwImport : List Char := ['i', 'm', 'p', 'o', 'r', 't']
 
+/-- whitespace characters that do not end a line: BOM, tab, space, comma -/
+def lineWs (x : Char) : Prop := x = Char.ofNat 65279 ∨ x = '\t' ∨ x = ' ' ∨ x = ','
+instance (x : Char) : Decidable (lineWs x) := by unfold lineWs; infer_instance
+
+/-- why a comment text `b` (leading spaces removed) is not the beginning of an `#import` statement, visibly within the line:
+    it does not begin with `import`; or `import` is followed by a name character (`important`, `imports`); or after
+    `import` and blanks `w` comes a character `d` that starts neither a name, nor `*`, nor a nested comment, nor is a blank
+    (`# import: see below`, `#import "x"`, `# import 2 files`) -/
+def NotImportHead (b : List Char) : Prop :=
+  ¬ (kwImport <+: b) ∨
+  (∃ d r, b = kwImport ++ d :: r ∧ nameCont d) ∨
+  (∃ w d r, b = kwImport ++ (w ++ d :: r) ∧ (∀ x ∈ w, lineWs x) ∧ (w = [] → ¬ nameCont d) ∧ ¬ nameStart d ∧ d ≠ '*' ∧
+    d ≠ '#' ∧ ¬ lineWs d)
+
 /-- the text of a comment after `#`: `body` then the line terminator `nl` -/
 structure CommentText (body nl : List Char) : Prop where
   chars : ∀ x ∈ body, x ≠ '\n' ∧ x ≠ '\r'
-  noImport : ¬ (kwImport <+: body.dropWhile (· = ' '))
+  noImport : NotImportHead (body.dropWhile (· = ' '))
   nl : nl = ['\n'] ∨ nl = ['\r', '\n'] ∨ nl = ['\r']
 
 /-! ### more rule-call combinators -/
@@ -208,6 +226,93 @@ theorem noImport_match {b' cont : List Char} (h : ¬ (kwImport <+: b'))
         rcases hd with rfl | rfl <;> (rcases hmem with h | h | h | h | h | h <;> exact absurd h (by decide))
     · exact h ⟨c', h1.symm⟩
 
+/-! ### `ext_ImportStatementContent` fails on a text that is visibly not an import statement -/
+
+theorem look_ext_ISC_full : gList.look R.ext_ImportStatementContent = some (.nonAtomic,
+    .seq (.call R.ext_KEYWORD_import) (.seq (.call R.ext_ImportTargets) (.seq (.call R.ext_KEYWORD_from)
+      (.call R.StringValue)))) := rfl
+theorem look_ext_ImportTargets : gList.look R.ext_ImportTargets = some (.normal, .plus (.call R.ext_NameOrAsterisk)) := rfl
+theorem look_ext_NameOrAsterisk : gList.look R.ext_NameOrAsterisk = some (.silent,
+    .choice (.seq (.not (.call R.ext_KEYWORD_from)) (.call R.Name)) (.call R.ext_PUNC_asterisk)) := rfl
+theorem look_ext_PUNC_asterisk : gList.look R.ext_PUNC_asterisk = some (.normal, .str ['*']) := rfl
+theorem look_ext_KEYWORD_from : gList.look R.ext_KEYWORD_from =
+    some (.atomic, .seq (.str ['f', 'r', 'o', 'm']) (.not (.call R.NameContinue))) := rfl
+
+/-- `ext_ImportTargets` fails in front of a character that starts neither a name nor `*` -/
+theorem importTargets_fails {p : Nat} {d : Char} {y : List Char} (h1 : ¬ nameStart d) (h2 : d ≠ '*') (h3 : ¬ trivia d) :
+    FailsRule gList 27 R.ext_ImportTargets .nonAtomic ⟨p, d :: y⟩ := by
+  have hf : d ≠ 'f' := by rintro rfl; exact h1 (by decide)
+  have g1 : Runs gList 20 true (.not (.call R.ext_KEYWORD_from)) .nonAtomic ⟨p, d :: y⟩ ⟨p, d :: y⟩ [] :=
+    (runsL_not (la := .none) (failsL_call (keywordL_fails_str look_ext_KEYWORD_from p (d :: y)
+      (by simp [matchStr, Ne.symm hf])))).mono (by omega)
+  have g2 : SkipTo 20 ⟨p, d :: y⟩ ⟨p, d :: y⟩ := skipTo_noop (headNot_cons h3 _)
+  have g3 : Fails gList 20 true (.call R.Name) .nonAtomic ⟨p, d :: y⟩ :=
+    (fails_call (name_fails (headNot_cons h1 _))).mono (by omega)
+  have s1 := fails_seq_skip_last g1 g2 g3
+  have s2 : Fails gList 21 true (.call R.ext_PUNC_asterisk) .nonAtomic ⟨p, d :: y⟩ :=
+    (fails_call (failsRule_normal look_ext_PUNC_asterisk (notSpecial (by decide) (by decide))
+      (fails_str (c := ⟨p, d :: y⟩) (by simp [matchStr, Ne.symm h2])))).mono (by omega)
+  have s3 := failsRule_silent look_ext_NameOrAsterisk (notSpecial (by decide) (by decide)) (fails_choice s1 s2)
+  have s4 : Fails gList 26 true (.plus (.call R.ext_NameOrAsterisk)) .nonAtomic ⟨p, d :: y⟩ :=
+    failsL_plus (la := .none) (fails_seq_first (fails_call s3))
+  exact failsRule_normal look_ext_ImportTargets (notSpecial (by decide) (by decide)) s4
+
+theorem lineWs_wsChar {x : Char} (h : lineWs x) : wsChar x := by
+  rcases h with h | h | h | h
+  · exact Or.inl h
+  · exact Or.inr (Or.inl h)
+  · exact Or.inr (Or.inr (Or.inl h))
+  · exact Or.inr (Or.inr (Or.inr (Or.inr (Or.inr h))))
+
+/-- `ext_ImportStatementContent` (any calling context, any lookahead state) fails on a text that is visibly not an import
+    statement; `cont` is what follows the comment text: it begins with LF / CR or is empty -/
+theorem isc_fails {la : Look} {at_ : Atomicity} {b cont : List Char} (h : NotImportHead b)
+    (hb : ∀ x ∈ b, x ≠ '\n' ∧ x ≠ '\r') (hc : ∀ d r, cont = d :: r → d = '\n' ∨ d = '\r') (p : Nat) :
+    FailsRuleL gList la (b.length + 24) R.ext_ImportStatementContent at_ ⟨p, b ++ cont⟩ := by
+  rcases h with h | ⟨d, r, rfl, hd⟩ | ⟨w, d, r, rfl, hw, hwd, hns, hstar, hhash, hlw⟩
+  · have hm : matchStr kwImport (b ++ cont) = none := noImport_match h hc
+    exact (failsRuleL_nonAtomicKind look_ext_ISC_full (failsL_seq_first (failsL_call
+      (keywordL_fails_str look_ext_KEYWORD_import _ _ hm)))).mono (by omega)
+  · have := keywordL_fails_cont (la := la) (at_ := .nonAtomic) look_ext_KEYWORD_import p d (r ++ cont) hd
+    have e : (kwImport ++ d :: r) ++ cont = kwImport ++ d :: (r ++ cont) := by simp
+    rw [e]
+    exact (failsRuleL_nonAtomicKind look_ext_ISC_full (failsL_seq_first (failsL_call this))).mono (by omega)
+  · refine FailsRuleL.look (la := .none) ?_ la
+    have hdb : d ≠ '\n' ∧ d ≠ '\r' := hb d (by simp)
+    have hdt : ¬ trivia d := by
+      rintro (h | h | h | h | h | h | h)
+      · exact hlw (Or.inl h)
+      · exact hlw (Or.inr (Or.inl h))
+      · exact hlw (Or.inr (Or.inr (Or.inl h)))
+      · exact hdb.1 h
+      · exact hdb.2 h
+      · exact hlw (Or.inr (Or.inr (Or.inr h)))
+      · exact hhash h
+    have e : (kwImport ++ (w ++ d :: r)) ++ cont = kwImport ++ (w ++ (d :: (r ++ cont))) := by simp
+    rw [e]
+    -- `import`
+    have hglue : HeadNot nameCont (w ++ (d :: (r ++ cont))) := by
+      cases w with
+      | nil => exact headNot_cons (hwd rfl) _
+      | cons x xs =>
+        refine headNot_cons ?_ _
+        have := hw x (List.mem_cons_self ..)
+        rcases this with rfl | rfl | rfl | rfl <;> decide
+    have g1 : Runs gList (w.length + 29) true (.call R.ext_KEYWORD_import) .nonAtomic ⟨p, kwImport ++ (w ++ (d :: (r ++ cont)))⟩
+        ⟨p + 6, w ++ (d :: (r ++ cont))⟩ [Pair.mk R.ext_KEYWORD_import p (p + 6) []] := by
+      have := keywordL_runs (la := .none) (at_ := .nonAtomic) look_ext_KEYWORD_import p _ hglue
+      exact (runs_call (runsRule_iff.mpr (by simpa using this))).mono (by omega)
+    -- the blanks
+    have g2 : SkipTo (w.length + 29) ⟨p + 6, w ++ (d :: (r ++ cont))⟩ ⟨p + 6 + w.length, d :: (r ++ cont)⟩ :=
+      (skip_wsrun w (fun x hx => lineWs_wsChar (hw x hx)) (p + 6) _ (headNot_cons hdt _)).mono (by omega)
+    -- no import target
+    have g3 : Fails gList (w.length + 29) true (.seq (.call R.ext_ImportTargets) (.seq (.call R.ext_KEYWORD_from)
+        (.call R.StringValue))) .nonAtomic ⟨p + 6 + w.length, d :: (r ++ cont)⟩ :=
+      (fails_seq_first (fails_call (importTargets_fails hns hstar hdt))).mono (by omega)
+    have body := fails_seq_skip_last g1 g2 g3
+    refine (failsRuleL_nonAtomicKind (la := .none) look_ext_ISC_full body).mono ?_
+    simp only [List.length_append, List.length_cons]; omega
+
 /-- the `COMMENT` rule on a comment -/
 theorem comment_runs {body nl : List Char} (h : CommentText body nl) (p : Nat) (x : List Char)
     (hx : nl = ['\r'] → HeadNot (· = '\n') x) :
@@ -232,13 +337,12 @@ theorem comment_runs {body nl : List Char} (h : CommentText body nl) (p : Nat) (
     | cons c cs => exact headNot_cons (P := (· = ' ')) (hb' c cs rfl) _
   have h2 := spaces_star sp (p + 1) (b' ++ (nl ++ x)) hsp hhead
   -- !ext_ImportStatementContent
-  have hm : matchStr kwImport (b' ++ (nl ++ x)) = none :=
-    noImport_match (hbd ▸ h.noImport) (fun d' r he => by rw [hnl0] at he; cases he; exact hd)
-  obtain ⟨tl, hisc⟩ := look_ext_ISC
-  have h3 : Runs gList 17 false (.not (.call R.ext_ImportStatementContent)) .atomic ⟨p + 1 + sp.length, b' ++ (nl ++ x)⟩
+  have hisc : FailsRuleL gList .neg (b'.length + 24) R.ext_ImportStatementContent .atomic
+      ⟨p + 1 + sp.length, b' ++ (nl ++ x)⟩ :=
+    isc_fails (hbd ▸ h.noImport) hb'chars (fun d' r he => by rw [hnl0] at he; cases he; exact hd) _
+  have h3 : Runs gList (b'.length + 26) false (.not (.call R.ext_ImportStatementContent)) .atomic ⟨p + 1 + sp.length, b' ++ (nl ++ x)⟩
       ⟨p + 1 + sp.length, b' ++ (nl ++ x)⟩ [] :=
-    runsL_not (la := .none) (failsL_call (failsRuleL_nonAtomicKind hisc (failsL_seq_first (failsL_call
-      (keywordL_fails_str look_ext_KEYWORD_import _ _ hm)))))
+    runsL_not (la := .none) (failsL_call hisc)
   -- CommentCharacter*
   have h4 := cc_star b' (p + 1 + sp.length) d (nr ++ x) hb'chars hd
   -- NEWLINE
